@@ -565,6 +565,117 @@ Lemma extract_spec_no_charset s :
   after_first_charset s = None -> extract_spec s = None.
 Proof. intros H. unfold extract_spec. cbn [extract_loop]. now rewrite H. Qed.
 
+(* ------------------------------------------------------------------ the meta arm *)
+Lemma bytes_eqb_eq a : forall b, bytes_eqb a b = true <-> a = b.
+Proof.
+  induction a as [|x a IH]; intros [|y b]; cbn; split; intros H; try discriminate; try reflexivity.
+  - apply andb_prop in H. destruct H as [H1 H2]. apply N.eqb_eq in H1. apply IH in H2. now subst.
+  - inversion H; subst. rewrite N.eqb_refl. cbn. now apply IH.
+Qed.
+
+Lemma str_eqb_eq a : forall b, str_eqb a b = true <-> a = b.
+Proof.
+  induction a as [|x a IH]; intros [|y b]; cbn; split; intros H; try discriminate; try reflexivity.
+  - apply andb_prop in H. destruct H as [H1 H2]. apply N.eqb_eq in H1. apply IH in H2. now subst.
+  - inversion H; subst. rewrite N.eqb_refl. cbn. now apply IH.
+Qed.
+
+Lemma eqb_encs n m : scalars n -> scalars m -> bytes_eqb (encs n) (encs m) = str_eqb n m.
+Proof.
+  intros Hn Hm. destruct (str_eqb n m) eqn:E.
+  - apply str_eqb_eq in E. subst. now apply bytes_eqb_eq.
+  - destruct (bytes_eqb (encs n) (encs m)) eqn:E2; [|reflexivity].
+    apply bytes_eqb_eq in E2. apply encs_inj in E2; auto. subst.
+    assert (str_eqb m m = true) by now apply str_eqb_eq. congruence.
+Qed.
+
+Definition scalar_attrs (attrs : list (list N * list N)) : Prop :=
+  Forall (fun a => scalars (fst a) /\ scalars (snd a)) attrs.
+Definition enc_attrs (attrs : list (list N * list N)) : list (list N * list N) :=
+  map (fun a => (encs (fst a), encs (snd a))) attrs.
+
+Lemma ascii_scalars w : ascii_word w -> scalars w.
+Proof.
+  induction 1 as [|a w Ha Hw IH]; constructor; [|exact IH].
+  unfold is_scalar. replace (a <? 0xD800) with true by lia. reflexivity.
+Qed.
+
+Lemma encs_ascii_word w : ascii_word w -> encs w = w.
+Proof.
+  induction 1 as [|a w Ha Hw IH]; [reflexivity|]. now rewrite encs_cons, enc_ascii, IH.
+Qed.
+
+Lemma get_attribute_encs attrs name : scalar_attrs attrs -> ascii_word name ->
+  get_attribute (enc_attrs attrs) name = option_map encs (attribute attrs name).
+Proof.
+  intros Ha Hn. induction Ha as [|[n v] attrs [Hs1 Hs2] Ha IH]; [reflexivity|].
+  cbn [enc_attrs map fst snd get_attribute attribute] in *.
+  rewrite <- (encs_ascii_word name Hn) at 1.
+  rewrite eqb_encs by (auto using ascii_scalars).
+  destruct (str_eqb n name); [reflexivity|]. exact IH.
+Qed.
+
+Lemma all_eq_ic_len a : forall b, all_eq_ic a b = true -> length a = length b.
+Proof.
+  induction a as [|x a IH]; intros [|y b] H; cbn in *; try discriminate; [reflexivity|].
+  apply andb_prop in H. destruct H as [_ H]. f_equal. now apply IH.
+Qed.
+
+Lemma eq_ic_all a b : eq_ignore_ascii_case a b = all_eq_ic a b.
+Proof.
+  unfold eq_ignore_ascii_case. destruct (all_eq_ic a b) eqn:E; [|apply andb_false_r].
+  apply all_eq_ic_len in E. rewrite E, Nat.eqb_refl. reflexivity.
+Qed.
+
+Lemma all_eq_ic_encs w : ascii_word w -> forall h, all_eq_ic (encs h) w = ci_match h w.
+Proof.
+  induction 1 as [|a w Ha Hw IH]; intros h.
+  - destruct h as [|c h]; [reflexivity|]. rewrite encs_cons. cbn [ci_match].
+    destruct (enc c) eqn:E; [now apply enc_nonempty in E|reflexivity].
+  - destruct h as [|c h]; [reflexivity|]. rewrite encs_cons. cbn [ci_match].
+    destruct (N.ltb_spec c 0x80) as [Hc|Hc].
+    + rewrite (enc_ascii c Hc). cbn [app all_eq_ic]. unfold ci_eq.
+      change to_ascii_lowercase with ascii_lower. now rewrite IH.
+    + destruct (enc_hi_cons c Hc) as (b0 & r & -> & Hb & _). cbn [app all_eq_ic].
+      change to_ascii_lowercase with ascii_lower.
+      pose proof (ci_eq_hi b0 a Hb Ha) as E1. pose proof (ci_eq_hi c a Hc Ha) as E2.
+      unfold ci_eq in *. rewrite E1, E2. reflexivity.
+Qed.
+
+Definition lift_arm (o : option (list N)) : arm_res :=
+  match o with Some l => AIndicator l | None => ADone end.
+
+Lemma attribute_scalars attrs name v :
+  scalar_attrs attrs -> attribute attrs name = Some v -> scalars v.
+Proof.
+  induction 1 as [|[n x] attrs [H1 H2] Ha IH]; intros H; [discriminate|].
+  cbn in H. destruct (str_eqb n name); [now inversion H; subst|auto].
+Qed.
+
+Theorem meta_arm_correct attrs : scalar_attrs attrs ->
+  meta_arm (enc_attrs attrs) = lift_arm (option_map encs (meta_label_spec attrs)).
+Proof.
+  intros Ha. unfold meta_arm, meta_label_spec.
+  change n_charset with word_charset. change n_http_equiv with w_http_equiv.
+  change n_content with w_content. change v_content_type with w_content_type.
+  rewrite (get_attribute_encs attrs word_charset Ha word_charset_ascii).
+  destruct (attribute attrs word_charset) as [v|]; [reflexivity|]. cbn [option_map].
+  rewrite (get_attribute_encs attrs w_http_equiv Ha) by (repeat constructor).
+  destruct (attribute attrs w_http_equiv) as [h|]; [|reflexivity]. cbn [option_map].
+  rewrite eq_ic_all, all_eq_ic_encs by (repeat constructor).
+  rewrite (get_attribute_encs attrs w_content Ha) by (repeat constructor).
+  destruct (attribute attrs w_content) as [c|] eqn:Ec; cbn [option_map].
+  - destruct (ci_match h w_content_type); [|reflexivity].
+    rewrite (extract_impl_correct c) by (eapply attribute_scalars; eauto).
+    destruct (extract_spec c); reflexivity.
+  - destruct (ci_match h w_content_type); reflexivity.
+Qed.
+
+Corollary meta_arm_correct_match attrs : scalar_attrs attrs ->
+  meta_arm (enc_attrs attrs) =
+  match meta_label_spec attrs with Some l => AIndicator (encs l) | None => ADone end.
+Proof. intros H. rewrite (meta_arm_correct attrs H). destruct (meta_label_spec attrs); reflexivity. Qed.
+
 (* ------------------------------------------------------------------ tests
    (vm_compute over samples: tests, not proofs) - the unit tests of
    encoding.rs replayed on the model and on the specification *)
